@@ -1054,7 +1054,7 @@ fn c02(g: &mut Gen) {
         for _ in 0..reps {
             let cfg = gen_cfg(&mut g.rng);
             g.case("arm", &cfg, |s, r| {
-                s.twin_on = true;
+                s.twin_on = true; s.alt_on = false;
                 let src = r.below(128) as u8;
                 let body = if ty == 0 {
                     match r.below(3) {
@@ -1081,7 +1081,7 @@ fn c02(g: &mut Gen) {
     for _ in 0..reps {
         let cfg = gen_cfg(&mut g.rng);
         g.case("trailing", &cfg, |s, r| {
-            s.twin_on = true;
+            s.twin_on = true; s.alt_on = false;
             let p = match r.below(3) {
                 0 => request(r.below(128) as u8, 0, 1, &[r.below(2) as u8, 1 + r.below(254) as u8], r),
                 1 => encoder_packet(s, r).unwrap_or_else(|| gen_packet(r, true)),
@@ -1100,7 +1100,7 @@ fn c02(g: &mut Gen) {
     for _ in 0..reps {
         let cfg = gen_cfg(&mut g.rng);
         g.case("count", &cfg, |s, r| {
-            s.twin_on = true;
+            s.twin_on = true; s.alt_on = false;
             let p = if r.chance(1, 2) { request(r.below(128) as u8, 0, 1, &[r.below(2) as u8, 1 + r.below(254) as u8], r) } else { gen_packet(r, true) };
             for c in 0..256u32 {
                 if p.len() > 2 && c as u8 != p[2] {
@@ -1121,6 +1121,7 @@ fn c02(g: &mut Gen) {
         let pats: u32 = if g.thorough { 255 } else { 6 };
         let thorough = g.thorough;
         g.case("burst", &cfg, |s, r| {
+            s.alt_on = false;
             let tl = 14 + r.below(6) as usize;
             let c = gen_call(r, key, false, Some(tl));
             let buf = vec![0u8; expected_len(&c).unwrap_or(12)];
@@ -1140,7 +1141,7 @@ fn c02(g: &mut Gen) {
     for _ in 0..n {
         let cfg = gen_cfg(&mut g.rng);
         g.case("hist", &cfg, |s, r| {
-            s.twin_on = true;
+            s.twin_on = true; s.alt_on = false;
             for _ in 0..(2 + r.below(10)) {
                 if r.chance(1, 2) {
                     let p = request(r.below(128) as u8, 0, 1, &[r.below(2) as u8, 1 + r.below(254) as u8], r);
